@@ -65,6 +65,9 @@ class Plane:
             # an OPD map transmits over the whole map
             mask = np.copy(np.broadcast_to(self._amplitude,
                                            np.broadcast(self._amplitude, self._opd).shape))
+        else:
+            # binarize a copy, not the caller's array
+            mask = np.array(mask)
         
         mask[mask != 0] = 1
         self._mask = mask
